@@ -1,6 +1,7 @@
 CONSTANTS
   MaxOps = 4
   MaxReq = 3
+  TwoStep = FALSE
   Free = FALSE
 SPECIFICATION Spec
 INVARIANT Emit
